@@ -27,6 +27,34 @@ def table_report(ctx):
     return {"tag_problems": grab("P"), "code_clashes": grab("C"), "name_clashes": grab("N")}
 
 
+def isolation_stratum(ctx):
+    import json
+    import p_diam
+    ok, log = go_build(["diamsim"])
+    if not ok:
+        raise RuntimeError("harness build failed:\n" + log[-3000:])
+    lines, pairs = [], []
+    for k, (req, action, rtype) in enumerate([(300, 0, 2), (1, 0, 2), (4000, 0, 1), (7, 1, 2), (50, 0, 2), (2 ** 32, 0, 2)]):
+        a, b = "imsi-20893077%07d" % (2 * k), "imsi-20893077%07d" % (2 * k + 1)
+        lines += [{"op": "account", "supi": a, "rg": 1, "quota": "100000", "unitCost": "1"},
+                  {"op": "account", "supi": b, "rg": 1, "quota": "500", "unitCost": "1"},
+                  {"op": "ccr", "supi": a, "rg": 1, "action": action, "reqType": rtype, "reqNum": k, "sessionId": str(1000 + k), "requested": str(req), "used": None},
+                  {"op": "ccr", "supi": b, "rg": 1, "action": 0, "reqType": 2, "reqNum": k + 100, "sessionId": str(2000 + k), "requested": None, "used": None, "omitMscc": True}]
+        pairs.append((len(lines) - 1, b, req))
+    res = p_diam.run_diamsim(ctx, lines)
+    leaks = []
+    for (i, b, req) in pairs:
+        o = res[i]
+        bal = int(o["db"]["%s|1" % b]["quota"])
+        ans = o.get("answer") or {}
+        mscc = ans.get("MultipleServicesCreditControl") or {}
+        granted = (mscc.get("GrantedServiceUnit") or {}).get("CCTotalOctets")
+        if bal != 500 or (o.get("answered") and granted not in (None, 0, "0")):
+            leaks.append({"subscriber": b, "prev_requested": req, "balance_after": bal, "granted": granted,
+                          "what": "granted %s units, balance %d -> %d" % (granted, 500, bal), "ops": lines[i - 3:i + 1]})
+    return {"pairs": len(pairs), "leaks": leaks}
+
+
 def run(ctx, replay=None):
     ok, log = go_build(["dictgen", "diamcorr"])
     if not ok:
@@ -69,6 +97,18 @@ def run(ctx, replay=None):
         ctx.violations.append({"property": "C17", "key": "C17/message-not-carried", "found_input": True, "seed": ctx.seed,
                                "what": "Marshal, WriteTo or ReadMessage failed for %s generated in-range messages (marshal-error=%s read-error=%s)" %
                                        (stats.get("go_failures"), stats.get("marshal-error", 0), stats.get("read-error", 0))})
+    # ---- end to end, receiver side: what the servers act on is what the request carried, not what an earlier
+    # request left behind.  A CCR without Multiple-Services-Credit-Control, sent after a CCR that carried one, must
+    # neither be granted units nor move a balance.
+    iso = isolation_stratum(ctx)
+    cov_iso = {"pairs": iso["pairs"], "leaks": len(iso["leaks"])}
+    if iso["leaks"] and not found:
+        found = True
+        l = iso["leaks"][0]
+        ctx.violations.append({"property": "C17", "key": "C17/receiver-keeps-earlier-request", "found_input": True, "seed": ctx.seed,
+                               "what": "a credit-control request without Multiple-Services-Credit-Control, sent after one that requested %s units, "
+                                       "was %s: the server acted on fields the request did not carry" % (l["prev_requested"], l["what"]),
+                               "replay": l})
     if ctx.proof_broken:
         rep = table_report(ctx)
         witness = [k + ": " + v for k, v in rep.items() if v not in ("[]", "?")]
@@ -86,6 +126,7 @@ def run(ctx, replay=None):
         ctx.violations.append({"property": "C17", "key": "C17/corr%d" % c, "found_input": False, "seed": ctx.seed,
                                "what": "correspondence broken: %s (case %d)" % (CODES[c], bycode[c][0]),
                                "broken": "correspondence Diam/Corr.v code %d" % c})
+    cov["receiver_isolation"] = cov_iso
     cov.update({"evaluations": n, "distinct_nontrivial": n, "exhaustive": False, "mismatches": {str(k): len(v) for k, v in bycode.items()},
                 "input_distribution": stats,
                 "rule": "values of ServiceUsageRequest/Response and AccountDebitRequest/Response built by reflection from one PRNG: each integer field 0 / max / max-1 / sign bit / "
